@@ -29,7 +29,7 @@ def prop(pid, rules, explanation, minimum=None, assumptions=None):
 
 prop('C01',
      [T.rule_lookup_shape, T.rule_chain, T.rule_total_ber, T.rule_pair_ber, T.rule_fragment_tag_ber, A.rule_a7_unit,
-      A.rule_a8_pairing, W.rule_encode_header, W.rule_decode_header, A.rule_c04_default, E.rule_option_latch, A.rule_a6_spec, Z.rule_encode_tag_arms, Z.rule_bits_prepend, Z.rule_option_scope, A.rule_a6_optdef, Z.rule_encode_contents, Z.rule_real_format, Z.rule_integer_octets, A.rule_c13, R.rule_real_base, R.rule_real_exponent, R3.rule_sized_length, R3.rule_segment_spec, R.rule_real_base10_exact, Z.rule_cache_key, R4.rule_item_option, R4.rule_eoo_probe_boundary, R4.rule_form_by_base_tag],
+      A.rule_a8_pairing, W.rule_encode_header, W.rule_decode_header, A.rule_c04_default, E.rule_option_latch, A.rule_a6_spec, Z.rule_encode_tag_arms, Z.rule_bits_prepend, Z.rule_option_scope, A.rule_a6_optdef, Z.rule_encode_contents, Z.rule_real_format, Z.rule_integer_octets, A.rule_c13, R.rule_real_base, R.rule_real_exponent, R3.rule_sized_length, R3.rule_segment_spec, R.rule_real_base10_exact, Z.rule_cache_key, R4.rule_item_option, R4.rule_eoo_probe_boundary, R4.rule_form_by_base_tag, R4.rule_bit_slice],
      'Static necessary conditions of the BER round trip: every type class has an encoder by type and a decoder by type; '
      'writer and reader of each type belong to the same codec family; string segments are tagged by the writer as the '
      'reader demands and as X.690 8.23.6 says; chunks are slices of the measured octets; end-of-octets is appended iff '
@@ -38,16 +38,16 @@ prop('C01',
      'equality are not decided.'
      '  Also: A per-component encoder option (ifNotEmpty) is taken out of the options before they reach the component\'s own components; the end-of-octets probe is requested only at element boundaries; payload decoders read the encoding form from the base tag.',
      {'A1.total': 60, 'A1.pair': 80, 'A7.tag': 30, 'A1.chain': 12, 'A1.lookup': 5, 'A7.unit': 3, 'A8.pair': 20,
-      'W.enc': 8, 'W.dec': 10, 'C04.default': 4, 'W.realbase': 2, 'W.realexp': 3, 'W.sized': 6, 'W.segtag': 2, 'W.real10': 3, 'A5.itemopt': 2, 'A8.probe': 9, 'A6.form': 9})
+      'W.enc': 8, 'W.dec': 10, 'C04.default': 4, 'W.realbase': 2, 'W.realexp': 3, 'W.sized': 6, 'W.segtag': 2, 'W.real10': 3, 'A5.itemopt': 2, 'A8.probe': 9, 'A6.form': 9, 'W.bitslice': 2})
 
 prop('C02',
      [T.rule_chain, T.rule_derived, T.rule_total_canon, T.rule_pair_canon, T.rule_modes, T.rule_keykind,
-      T.rule_fragment_tag_canon, A.rule_a7_unit, A.rule_a8_pairing, E.rule_option_latch, A.rule_c04_default, A.rule_a6_spec, Z.rule_real_normalisation, A.rule_a6_optdef, Z.rule_integer_octets, Z.rule_bits_prepend, M.rule_a9_setof, R.rule_real_exponent, R.rule_cer_real_base, R3.rule_sized_length, R3.rule_segment_spec, R4.rule_item_option, R4.rule_segment_handover, R4.rule_eoo_probe_boundary, R4.rule_real_initialisers_normalised],
+      T.rule_fragment_tag_canon, A.rule_a7_unit, A.rule_a8_pairing, E.rule_option_latch, A.rule_c04_default, A.rule_a6_spec, Z.rule_real_normalisation, A.rule_a6_optdef, Z.rule_integer_octets, Z.rule_bits_prepend, M.rule_a9_setof, R.rule_real_exponent, R.rule_cer_real_base, R3.rule_sized_length, R3.rule_segment_spec, R4.rule_item_option, R4.rule_segment_handover, R4.rule_eoo_probe_boundary, R4.rule_real_initialisers_normalised, R4.rule_bit_slice, A.rule_c13],
      'CER/DER tables are derived from and total w.r.t. BER, fixed encoder modes match X.690 9/10 and override caller '
      'options, codec families pair up, string segments agree between the CER writer and every reader, end-of-octets '
      'pairs with the indefinite header.  Equality of decoded values is not decided.'
      '  Also: A per-component encoder option is not inherited by the component\'s components; the end-of-octets probe is requested only at element boundaries; the segments of a chunked string get a re-tagged spec on every path; base-10 REAL triples are normalised whatever they were initialised from.',
-     {'A1.total': 120, 'A1.pair': 150, 'A1.modes': 8, 'A1.derived': 8, 'A7.tag': 60, 'A8.pair': 20, 'W.realexp': 3, 'A1.cerreal': 2, 'W.sized': 6, 'W.segtag': 2, 'A5.itemopt': 2, 'W.segspec': 3, 'A8.probe': 9, 'W.real10in': 3})
+     {'A1.total': 120, 'A1.pair': 150, 'A1.modes': 8, 'A1.derived': 8, 'A7.tag': 60, 'A8.pair': 20, 'W.realexp': 3, 'A1.cerreal': 2, 'W.sized': 6, 'W.segtag': 2, 'A5.itemopt': 2, 'W.segspec': 3, 'A8.probe': 9, 'W.real10in': 3, 'W.bitslice': 2})
 
 prop('C03',
      [T.rule_x680, T.rule_modes, T.rule_canonical_sort_registered, M.rule_a9_set, M.rule_a9_setof, W.rule_encode_header,
@@ -105,18 +105,18 @@ prop('C08',
       'W.content': 15, 'A2.probe': 1, 'W.real10': 3, 'A3.segjoin': 5, 'C10.strictdec': 5})
 
 prop('C09',
-     [T.rule_ber_lax, T.rule_fragment_tag_ber, A.rule_a7_nested, A.rule_a6_spec, W.rule_decode_header, Z.rule_bits_prepend, Z.rule_constructed_yields, A.rule_a6_optdef, Z.rule_real_format, R3.rule_sized_length, R3.rule_method_identity, R3.rule_table_alias, R3.rule_eoo_identity, R4.rule_eoo_probe_boundary, R4.rule_segment_kinds, R4.rule_form_by_base_tag, R4.rule_zero_segments],
+     [T.rule_ber_lax, T.rule_fragment_tag_ber, A.rule_a7_nested, A.rule_a6_spec, W.rule_decode_header, Z.rule_bits_prepend, Z.rule_constructed_yields, A.rule_a6_optdef, Z.rule_real_format, R3.rule_sized_length, R3.rule_method_identity, R3.rule_table_alias, R3.rule_eoo_identity, R4.rule_eoo_probe_boundary, R4.rule_segment_kinds, R4.rule_form_by_base_tag, R4.rule_zero_segments, R4.rule_required_set],
      'BER decoder stays lax where X.690 allows choice: any non-zero TRUE, constructed strings with OCTET STRING '
      'segments (nested too), indefinite lengths, long-form lengths with leading zeros, SET members looked up by tag in '
      'any position in both length forms (sibling agreement of the record loops).  Length arithmetic is not decided.'
      '  Also: The end-of-octets probe is requested only at element boundaries; the constructed BIT STRING of no segments is read like its indefinite twin; the encoding form is read from the base tag.',
-     {'A1.lax': 35, 'A7.tag': 30, 'A7.nested': 4, 'A6.spec': 3, 'W.dec': 10, 'W.sized': 6, 'A5.methid': 2, 'A1.alias': 12, 'A8.eooid': 8, 'A8.probe': 9, 'A3.segjoin': 5, 'A6.form': 9, 'A6.zeroseg': 1})
+     {'A1.lax': 35, 'A7.tag': 30, 'A7.nested': 4, 'A6.spec': 3, 'W.dec': 10, 'W.sized': 6, 'A5.methid': 2, 'A1.alias': 12, 'A8.eooid': 8, 'A8.probe': 9, 'A3.segjoin': 5, 'A6.form': 9, 'A6.zeroseg': 1, 'C10.reqset': 1})
 
-prop('C10', [A.rule_c10, A.rule_a6_spec, X.rule_nonevalue, A.rule_c14, Z.rule_choice_result, A.rule_a6_optdef, Z.rule_constraint_denotation, Z.rule_bits_padding, R3.rule_container_cleared, R4.rule_strict_text_codecs, R4.rule_consistency_consults],
+prop('C10', [A.rule_c10, A.rule_a6_spec, X.rule_nonevalue, A.rule_c14, Z.rule_choice_result, A.rule_a6_optdef, Z.rule_constraint_denotation, Z.rule_bits_padding, R3.rule_container_cleared, R4.rule_strict_text_codecs, R4.rule_consistency_consults, R4.rule_required_set, M.rule_a9_setof],
      'Spec-guided exits of the constructed decoders: required components present; constraints (isInconsistent) checked '
      'before the value is returned; result is an ASN.1 object built from the guiding type.  The re-encode fixpoint is not decided.'
      '  Also: The text codecs of the string types use the strict error handler; isInconsistent answers \'consistent\' only after the constraints were asked (or there are none).',
-     {'C10.req': 2, 'C10.cons': 6, 'A13.value': 20, 'C10.strictdec': 5, 'C14.consult': 4})
+     {'C10.req': 2, 'C10.cons': 6, 'A13.value': 20, 'C10.strictdec': 5, 'C14.consult': 4, 'C10.reqset': 1})
 
 prop('C11', [M.rule_a12, G.rule_reads_confined, Z.rule_cache_reset, R.rule_eos_by_read, R3.rule_eos_poll, G.rule_retry, R4.rule_raw_read_none],
      'Substrate kinds are told apart only in codec/streaming.py (total dispatch, library error otherwise); the caching '
@@ -134,20 +134,20 @@ prop('C12',
      'and obeys the generator protocol.  Thread interleavings are argued from "no shared writes", not explored.',
      {'A5.value': 15, 'A5.spec': 12, 'A5.census': 8, 'A5.stateless': 40, 'A5.log': 40, 'A2.cons.log': 50, 'A5.encread': 1, 'A5.memo': 1, 'A1.alias': 12})
 
-prop('C13', [T.rule_x680, A.rule_c13, W.rule_encode_header, W.rule_decode_header, Z.rule_encode_tag_arms, Z.rule_cache_key, R4.rule_form_by_base_tag],
+prop('C13', [T.rule_x680, A.rule_c13, W.rule_encode_header, W.rule_decode_header, Z.rule_encode_tag_arms, Z.rule_cache_key, R4.rule_form_by_base_tag, R4.rule_bit_slice],
      'Tag algebra dataflow (explicit appends one constructed tag and refuses UNIVERSAL; implicit replaces the last tag '
      'keeping its form), comparison/hash keys cover class+number of every level, subtype() routes the tagging options, '
      'one identifier per tag prepended outermost-first, the decoder accepts only on tag equality / tag-map membership, '
      'identifier-octet guards match X.690 8.1.2.  Multi-octet identifier arithmetic is decided only up to its guards.'
      '  Also: Every payload decoder reads the encoding form from the base tag of the recovered tag set.',
-     {'C13.expl': 2, 'C13.impl': 1, 'C13.cmp': 9, 'C13.sub': 2, 'C13.enc': 1, 'C13.dec': 1, 'C13.model': 3, 'A1.x680': 35, 'A6.form': 9})
+     {'C13.expl': 2, 'C13.impl': 1, 'C13.cmp': 9, 'C13.sub': 2, 'C13.enc': 1, 'C13.dec': 1, 'C13.model': 3, 'A1.x680': 35, 'A6.form': 9, 'W.bitslice': 2})
 
-prop('C14', [A.rule_c14, Z.rule_constraint_denotation, R.rule_sizespec_fold, A.rule_c04_clone, R4.rule_consistency_consults, R4.rule_adding_narrows],
+prop('C14', [A.rule_c14, Z.rule_constraint_denotation, R.rule_sizespec_fold, A.rule_c04_clone, R4.rule_consistency_consults, R4.rule_adding_narrows, R4.rule_encoders_check_first],
      'Single constraint funnel for scalar payloads (who-may-write + must-pass-through), derivation only extends '
      'constraints and records ancestry, encoders refuse inconsistent constructed values.  The set-theoretic denotation '
      'of the _testValue comparisons is not decided.'
      '  Also: isInconsistent of the container bases answers \'consistent\' only after the constraints were asked; adding a constraint to a union builds the intersection of the union and the operand.',
-     {'C14.funnel': 2, 'C14.init': 4, 'C14.extend': 3, 'C14.enc': 5, 'C14.vmap': 4, 'C14.fold': 2, 'C14.consult': 4, 'C14.narrow': 4})
+     {'C14.funnel': 2, 'C14.init': 4, 'C14.extend': 3, 'C14.enc': 5, 'C14.vmap': 4, 'C14.fold': 2, 'C14.consult': 4, 'C14.narrow': 4, 'C14.encall': 3})
 
 prop('C15', [T.rule_lookup_shape, T.rule_chain, T.rule_strict, W.rule_decode_header, W.rule_content_guards, Z.rule_constructed_yields, R3.rule_table_alias, Z.rule_cache_key],
      'Strictness switches resolved per codec x lookup path by constant evaluation of the codec tables: strict BOOLEAN '
@@ -156,10 +156,10 @@ prop('C15', [T.rule_lookup_shape, T.rule_chain, T.rule_strict, W.rule_decode_hea
      '  Also: The tag-set cache of the item decoder is keyed by everything that determines the tag set.',
      {'A1.strict': 40, 'A1.chain': 12, 'A1.alias': 12})
 
-prop('C16', [T.rule_total_bytag, X.rule_nonevalue, T.rule_pair_ber, Z.rule_schemaless_tags, Z.rule_cache_key, R.rule_prototypes, R3.rule_encoder_by_type, R3.rule_eoo_identity, R3.rule_container_cleared, R3.rule_scalar_result_tags],
+prop('C16', [T.rule_total_bytag, X.rule_nonevalue, T.rule_pair_ber, Z.rule_schemaless_tags, Z.rule_cache_key, R.rule_prototypes, R3.rule_encoder_by_type, R3.rule_eoo_identity, R3.rule_container_cleared, R3.rule_scalar_result_tags, R4.rule_dynamic_order],
      'Schemaless decoding: by-tag table total over universal types and paired with the right codec family; no '
      'None/placeholder/raw octets reach a result yield.  Leaf equality and re-encode identity are not decided.',
-     {'A1.total': 80, 'A13.value': 20, 'A1.proto': 60, 'A1.enctype': 60, 'A8.eooid': 8})
+     {'A1.total': 80, 'A13.value': 20, 'A1.proto': 60, 'A1.enctype': 60, 'A8.eooid': 8, 'C16.dynorder': 3})
 
 prop('C17', [T.rule_total_native, A.rule_c17_contra, A.rule_a6_record_arms, A.rule_c04_default, Z.rule_native_record, M.rule_a9_dynamic, R.rule_omissions, R.rule_as_binary, R3.rule_native_scalar_value, R4.rule_segment_handover, R4.rule_items_positional, R4.rule_native_list_cleared],
      'Native tables total over all types; in the python-value arms the OPTIONAL-absent skip is satisfiable and precedes '
@@ -175,13 +175,13 @@ prop('C18', [A.rule_a8_dec, X.rule_nonevalue, T.rule_pair_ber, Z.rule_any_captur
      '  Also: The ANY decoder\'s collector identity test compares the same function object; the open-types flag does not depend on OPTIONAL / DEFAULT.',
      {'A8.dec': 1, 'A13.raw': 1, 'A6.mapref': 1, 'A6.truthy': 3, 'A6.openskip': 6})
 
-prop('C19', [S.rule_field, S.rule_pep479, S.rule_companion, S.rule_commit, S.rule_bounds, S.rule_schema_ops, A.rule_c04_clone, R.rule_position_order, R4.rule_copy_is_value],
+prop('C19', [S.rule_field, S.rule_pep479, S.rule_companion, S.rule_commit, S.rule_bounds, S.rule_schema_ops, A.rule_c04_clone, R.rule_position_order, R4.rule_copy_is_value, R4.rule_dynamic_order],
      'Container state machines: methods invoked on the component store exist on its shape; no StopIteration raised in '
      'generators; CHOICE keeps the chosen index in step with the store (companion state, single writer); setters '
      'validate before they commit; instantiating readers bound the position; scalar operators reach the payload only '
      'through operations the noValue sentinel plugs.  Refinement of a list/dict model over histories is not decided.'
      '  Also: The deep copy of a SEQUENCE OF / SET OF value is a value, that of a schema object a schema object.',
-     {'A10.field': 6, 'A10.pep479': 8, 'A10.companion': 2, 'A10.single': 8, 'A10.commit': 2, 'A10.bounds': 2, 'A10.schema': 60, 'A10.order': 3, 'C04.copyvalue': 2})
+     {'A10.field': 6, 'A10.pep479': 8, 'A10.companion': 2, 'A10.single': 8, 'A10.commit': 2, 'A10.bounds': 2, 'A10.schema': 60, 'A10.order': 3, 'C04.copyvalue': 2, 'C16.dynorder': 3})
 
 prop('C20', [M.rule_a11_offset, M.rule_a11_trim, Z.rule_trim_start, M.rule_a11_parse, R.rule_memo_key, R.rule_fraction_pair, R.rule_offset_division, R3.rule_time_length_last, R4.rule_offset_verbatim],
      'Time text: offset sign taken from a signed quantity, hour/minute fields within range and width (interval '
